@@ -219,7 +219,7 @@ pub fn run_check(ctx: &Ctx) -> i32 {
         foreign(&full, l1, "17 foreign-content documents x all pairs x L0,L1");
         sweep(ctx, "Fcore<=3 x 11 subjects x 7 observer subsets x strict{t,f} x L0,LB", Space::Frags { k: F_CORE, max: 3 }, &few, l0);
         sweep(ctx, "F<=3 x 11 subjects x 2 observer subsets x L0", Space::Frags { k, max: 3 }, &two, Levels { l1: false, l2_max_len: 0, bytewise: false, empties: false });
-        sweep(ctx, "10 foreign contexts x 55 foreign tag fragments<=2 x 11 subjects x 2 observer subsets x L0,L1", Space::Foreign { max: 2 }, &two, l1);
+        sweep(ctx, "10 foreign contexts x 58 foreign tag fragments<=2 x 11 subjects x 2 observer subsets x L0,L1", Space::Foreign { max: 2 }, &two, l1);
     } else {
         let full = build_pairs(&subjects, &all_masks, &[true, false]);
         let few = build_pairs(&subjects, &few_masks, &[true, false]);
@@ -228,7 +228,7 @@ pub fn run_check(ctx: &Ctx) -> i32 {
         sweep(ctx, "F<=3 x 11 subjects x 7 observer subsets x strict{t,f} x L0,L1", Space::Frags { k, max: 3 }, &few, l1);
         sweep(ctx, "Fcore<=4 x 11 subjects x 7 observer subsets x L0,LB", Space::Frags { k: F_CORE, max: 4 }, &few, l0);
         sweep(ctx, "B16<=5 x 11 subjects x 7 observer subsets x L0,L1", Space::Bytes { max: 5 }, &few, l1);
-        sweep(ctx, "10 foreign contexts x 55 foreign tag fragments<=2 x 11 subjects x 7 observer subsets x strict{t,f} x L0,L1", Space::Foreign { max: 2 }, &few, l1);
+        sweep(ctx, "10 foreign contexts x 58 foreign tag fragments<=2 x 11 subjects x 7 observer subsets x strict{t,f} x L0,L1", Space::Foreign { max: 2 }, &few, l1);
     }
     ctx.finish(
         "model_checking",
